@@ -21,6 +21,7 @@ ASSUMPTIONS = [
     "Iterator::nth(i) on a slice iterator yields the element at position i (library model)",
 ]
 RULES = {
+    "C10.CTOR": "entry point: every operand becomes the child of its own position, converted by into_future / into_stream only; nothing reorders, drops or duplicates operands",
     "C10.LIVE": "premises from the wake protocol, re-checked here for this family: task waker registered first, child polled with its own sub-waker (or the caller's context), no readiness lock across a child poll, a cleared bit is followed by a poll, re-arm after an item, readiness primitives / Wake::wake forward correctly",
     "C10.SEL": "the polled child is selected by self.index: nth(index) over the whole container / one match arm per tuple position",
     "C10.MONO": "index starts at 0; only written as index+1, once per Ready(None) of the selected input, nowhere else",
@@ -39,6 +40,8 @@ def run(ctx):
         M = ctx.model(cfg)
         units = families.passthrough_units(M, ("chain",))
         c01.live_premises(ctx, M, units, "C10.LIVE")
+        from . import ctors
+        ctors.run_family(ctx, M, units, "C10.CTOR", cfg)
         for u in units:
             rule_sel(ctx, M, u)
             rule_mono(ctx, M, u)
